@@ -64,7 +64,10 @@ def strategy(tier):
         maps=st.lists(mapping(), max_size=nmax),
         rollup=st.sampled_from(["auto", "auto", "enoent", "esrch"]),
         # older kernels print fewer lines - for every mapping alike
-        drop_core=st.sampled_from([None, None, None, "Swap", "Anonymous", "Referenced"]),
+        # older kernels print fewer lines per mapping (Pss since 2.6.25,
+        # Swap 2.6.26, Referenced 2.6.22, Anonymous 2.6.34 ...): 0 is reported
+        drop_core=st.sampled_from([None, None, None, None, "Swap", "Anonymous", "Referenced", "Pss",
+                                   "Shared_Clean", "Shared_Dirty", "Private_Clean", "Private_Dirty"]),
         memtotal_kb=st.one_of(st.sampled_from([1, 4, 2**20, 2**34]), st.integers(1, 2**36)),
         oneshot=st.booleans(),   # all calls inside one `with p.oneshot():` block
         memtype=st.sampled_from(["rss", "vms", "shared", "text", "lib", "data",
